@@ -16,7 +16,7 @@ META = {
         "number of subregions, offset decade, named dims); non-trivial = the selected axis "
         "(or some axis) has >= 2 cells."
     ),
-    "cases": {"quick": 1800, "thorough": 36000},
+    "cases": {"quick": 1800, "thorough": 72000},
     "workers": {"quick": 8, "thorough": 16},
     "timeout": {"quick": 600, "thorough": 5400},
     "deciding": [
